@@ -161,6 +161,22 @@ def _with_real_type(spec):
 for _n in range(8, 17):
     _with_real_type(PROPS['C%02d' % _n])
 
+# byte order of aggregate members reversed (gcc -fsso-struct=big-endian, library side only): every scalar that lives in a struct or union is stored most significant
+# byte first, as on a big-endian machine, while plain objects, pointers and the harness keep the host order. The part of "regardless of byte order" that can be
+# EXECUTED on this little-endian host: code that reaches the bytes of a word through a union or struct member (seeded change C17-M: the CRC state kept in a
+# union, table index read as byte[0]) computes with the other end of the word. Only for the pure byte / word routines, whose interfaces pass no aggregates.
+def _with_sso(spec):
+    base = spec['configs'] if 'configs' in spec else (lambda tier: [dict(name='default')])
+    spec['configs'] = lambda tier: base(tier) + [dict(name='sso-big-endian', flavour='san-o2', libflags=['-fsso-struct=big-endian'], nworkers=4, of=4)]
+    spec['parallel_configs'] = spec.get('parallel_configs', 1) + 1
+    spec['technique'] = spec.get('technique', '') + '; the library with the byte order of its aggregate members reversed (-fsso-struct=big-endian)'
+    spec['assumptions'] = list(spec.get('assumptions', [])) + ['configuration sso-big-endian: gcc scalar storage order "big-endian" for every struct and union of the library sources (not a big-endian '
+                                                               'target: plain objects and pointer casts keep the host order); a quarter of the cases']
+
+
+for _n in (17, 19):  # not C18: a_utf_len / a_utf_catc take an a_str, which the harness fills in host order
+    _with_sso(PROPS['C%02d' % _n])
+
 # link-time optimisation with strict aliasing on both sides (seeded changes C17-K, C19-K): harness/h_lto_codec.c hands the byte-oriented routines objects it has
 # just written through typed lvalues; library routines are inlined into those callers
 for _n in (17, 18, 19):
